@@ -792,6 +792,11 @@ func (m *endpointManager) resolveWorkloadEndpoints() {
 					}).Info("New endpoint has same iface name as existing")
 					if wlIdsAscending(&existingId, &id) {
 						logCxt.Info("Existing endpoint takes preference")
+						if oldWorkload != nil {
+							// This endpoint was active (on another interface) until
+							// now; it must not stay active there while it is shadowed.
+							removeActiveWorkload(logCxt, oldWorkload, id)
+						}
 						m.shadowedWlEndpoints[id] = workload
 						delete(m.pendingWlEpUpdates, id)
 						continue
